@@ -44,7 +44,8 @@ PROBES = ["probes/catch_up_branch", "probes/exhausted", "probes/query_before_pre
           "probes/exact_hit", "probes/within_roundoff_of_scheduled_time", "probes/via_parse_interrupt",
           "probes/answer_equals_query", "probes/fixed_copy_lost_cursor", "probes/copy_restarted",
           "faults/move_stall", "faults/move_small", "faults/move_mult", "faults/move_ulp", "faults/move_to_answer",
-          "faults/move_half", "faults/move_jump", "faults/move_before", "faults/move_copy"]
+          "faults/move_half", "faults/move_jump", "faults/move_before", "faults/move_copy",
+          "probes/same_object_initialised_again", "probes/initialised_again_before_its_first_start"]
 COMPONENTS = {
     "real": ["pde.trackers.interrupts.ConstantInterrupts", "pde.trackers.interrupts.FixedInterrupts",
              "pde.trackers.interrupts.LogarithmicInterrupts", "pde.trackers.interrupts.GeometricInterrupts",
@@ -636,16 +637,33 @@ def execute(plan: dict) -> dict:
             log.add("copy", objs.index(st), len(objs) - 1, new.restart)
             continue
 
-        if not st.model.can_continue():
+        forced = None
+        if kind == "reinit":
+            # the SAME object is initialised again, as a tracker used for a second run is - at any time, also one EARLIER than
+            # its very first start (constant and fixed schedules only: initialize() of a used logarithmic / geometric
+            # schedule does not reset it, which is outside the property - see ASSUMPTIONS)
+            if typ not in ("const", "fixed"):
+                continue
+            span = max(abs(st.t - t0), period0)
+            forced = t0 + float(move["f"]) * span
+            if not (math.isfinite(forced) and st.model.in_domain(forced)):
+                continue
+            probe("same_object_initialised_again")
+            if forced < t0:
+                probe("initialised_again_before_its_first_start")
+        if forced is None and not st.model.can_continue():
             fault("skipped_at_end_of_domain")
             continue
-        cand = _candidate(move, st)
-        t = st.t
-        if isinstance(cand, float) and math.isfinite(cand) and cand > t:
-            if st.model.in_domain(cand):
-                t = cand
-            else:
-                fault("clamped_to_domain")
+        if forced is None:
+            cand = _candidate(move, st)
+            t = st.t
+            if isinstance(cand, float) and math.isfinite(cand) and cand > t:
+                if st.model.in_domain(cand):
+                    t = cand
+                else:
+                    fault("clamped_to_domain")
+        else:
+            t = forced
         slot = objs.index(st)
         executed_kinds.add(kind)
         fault("move_" + kind)
@@ -653,7 +671,7 @@ def execute(plan: dict) -> dict:
 
         # -- a copy that has to be (re)started: copy, then initialize(t) as TrackerCollection does
         restarted = False
-        if st.fresh and st.restart:
+        if (st.fresh and st.restart) or forced is not None:
             restarted = True
         a_raw = None
         if not restarted:
@@ -910,6 +928,11 @@ def gen_plan(rng, tier: str, idx: int) -> dict:
     weights = [rng.choice([1, 1, 2, 4]) * (0.35 if k == "copy" else 1.0) for k in enabled]
     n = rng.choice([rng.randint(1, 8), rng.randint(5, 40), rng.randint(5, 40), rng.randint(20, 120), rng.randint(100, MAX_CALLS)])
     moves = [_gen_move(rng, rng.choices(enabled, weights)[0]) for _ in range(n)]
+    # the same object initialised again (a tracker used for a second run), possibly before its very first start (drawn last)
+    if typ in ("const", "fixed") and rng.random() < 0.2:
+        for _ in range(rng.choice([1, 1, 2])):
+            moves.insert(rng.randint(0, len(moves)), {"k": "reinit", "slot": 0,
+                                                      "f": rng.choice([-3.0, -1.0, -0.5, -0.25, 0.0, 0.5, 1.0, rng.uniform(-2.0, 1.0)])})
     plan = {"prop": PROPERTY, "spec": spec, "t0": t0, "moves": moves}
     if times is not None:
         plan["times"] = times
